@@ -123,6 +123,11 @@ func withEndpointForGRPC(u *url.URL) func(cfg Config) Config {
 func WithEnvCompression(n string, fn func(Compression)) func(e *envconfig.EnvOptionsReader) {
 	return func(e *envconfig.EnvOptionsReader) {
 		if v, ok := e.GetEnvValue(n); ok {
+			if v != "gzip" && v != "none" {
+				// An unknown value provides nothing: keep what a
+				// lower-precedence source configured.
+				return
+			}
 			cp := NoCompression
 			if v == "gzip" {
 				cp = GzipCompression
